@@ -793,6 +793,7 @@ func C05(p *ir.Program, r *report.R) {
 	}
 	c.MustFind("K7", "map-order/sites", p.Func("state", "StateDB.Finalise"), nMap, "map range loops on the execution path")
 
+	heapDiscipline(c)
 	c05SimpleMap(c)
 	serCanonicalMaps(p, r)
 	c05WrappedTrie(c)
@@ -1835,6 +1836,21 @@ func c05Cache(c C) {
 		c.R.Check("K7", "precheck/at-least-one-worker", p.InstrPos(in), okW, "the worker count derived from the CPU count is never zero (ceiling division or explicit lower bound): "+val)
 	})
 	c.MustFind("K7", "precheck/at-least-one-worker", v, nW, "worker count derived from runtime.NumCPU()")
+	// every worker of the pre-check has its OWN start index and result slot (passed as an argument: with
+	// `go 1.12` semantics a closure that reads the loop variable sees the value of the last iteration and
+	// whole residue classes of transactions are never verified) and is joined before the verdict is read
+	effW := ir.DefaultEffects(p)
+	nGo := 0
+	ir.Instrs(v, func(in ssa.Instruction) {
+		g, ok := in.(*ssa.Go)
+		if !ok {
+			return
+		}
+		nGo++
+		_, problems := c05GoShape(p, effW, g)
+		c.R.Check("K7", "precheck/worker-own-slot-and-joined", p.InstrPos(in), len(problems) == 0, fmt.Sprintf("own start index and result slot, WaitGroup.Wait on all paths; problems: %v", problems))
+	})
+	c.MustFind("K7", "precheck/workers", v, nGo, "go statement in verifyTxsOnProcess")
 }
 
 // c05Globals: package-level variables written on the execution path.
